@@ -165,3 +165,20 @@ for _pid, _add in ROUND34.items():
     if _pid in CHECKS:
         _t, _text, _note, _ref = CHECKS[_pid]
         CHECKS[_pid] = (_t, _text + " " + _add, _note, _ref)
+
+
+# ---- additions of session 3 (seeded rounds 8 and later) ----
+ROUND8 = {
+    "C01": "A sixth of the scenarios use user-defined subclasses of PluginEvent / UnplugEvent / RecomputeEvent (same event_type and precedence as their base class).",
+    "C06": "A half of the networks are judged after a trip through the library's own persistence (ChargingNetwork JSON, Simulator JSON, deepcopy).",
+    "C08": "In greedy_session_bounds sessions on continuous stations also carry positive minimum rates (every session waits at its minimum and is raised, in priority order, to the largest feasible rate between minimum and bound).",
+    "C09": "In half of the scenarios ONE run is in addition interrupted two to four times (in-process resumes and JSON checkpoints mixed, every checkpoint passing the loaded-state clauses).",
+    "C10": "A third of the sorted schedulers carry a SimpleRampdown estimator (permutation and determinism relations; the shift relation is not claimed for it).",
+    "C12": "Rule scribble_on_handed_out_table: the caller edits the DataFrame returned by constraints_as_df() in place; the network's rows must still equal the model.",
+    "C16": "In a quarter of the frontier starts the caller has edited, in place, the table constraints_as_df() handed out before the search begins.",
+    "C18": "Half of the completed simulations are analysed after being saved and loaded again (JSON string / path / buffer) or deep-copied.",
+}
+for _pid, _add in ROUND8.items():
+    if _pid in CHECKS:
+        _t, _text, _note, _ref = CHECKS[_pid]
+        CHECKS[_pid] = (_t, _text + " " + _add, _note, _ref)
